@@ -69,27 +69,36 @@ def replay(rec: Dict[str, Any]) -> List[Tuple[str, Dict[str, Any], str]]:
             patch = JSONPatch(JSONPatch(given).asdicts())
         else:
             patch = JSONPatch()
-            for d in given:
-                if d["op"] in ("move", "copy"):
-                    getattr(patch, d["op"])(d["from"], d["path"])
-                elif d["op"] == "remove":
-                    patch.remove(d["path"])
-                else:
-                    getattr(patch, d["op"])(d["path"], d["value"])
     except BaseException as e:  # noqa: BLE001
         bad.append(f"build-raised-{exc_family(e)}")
         patch = None
     results: List[Tuple[Any, Any]] = []
     if patch is not None:
-        if canon_dicts(patch.asdicts()) != pristine:
+        nbuilt = 0 if rec["route"] == "builder" else len(dicts)
+        if canon_dicts(patch.asdicts()) != pristine[:nbuilt]:
             got = [d.get("op") for d in patch.asdicts()]
             bad.append("asdicts-after-build" + ("-op-name" if got != [d["op"] for d in dicts] else ""))
         for k, h in enumerate(rec["hist"], 1):
             if bad:
                 break
+            if h["act"] == "build":
+                d = given[nbuilt]
+                try:
+                    if d["op"] in ("move", "copy"):
+                        getattr(patch, d["op"])(d["from"], d["path"])
+                    elif d["op"] == "remove":
+                        patch.remove(d["path"])
+                    else:
+                        getattr(patch, d["op"])(d["path"], d["value"])
+                except BaseException as e:  # noqa: BLE001
+                    bad.append(f"builder-raised-{exc_family(e)}")
+                    break
+                nbuilt += 1
+                continue
+            pristine_now = pristine[:nbuilt]
             if h["act"] == "asdicts":
-                if canon_dicts(patch.asdicts()) != pristine:
-                    bad.append(f"asdicts-changed-after-{k - 1}-actions")
+                if canon_dicts(patch.asdicts()) != pristine_now:
+                    bad.append("asdicts-differs-from-operations-given" + ("-mid-build" if nbuilt < len(dicts) else ""))
                 continue
             doc = untag(h["doc"])
             exp = h["result"]
@@ -111,7 +120,7 @@ def replay(rec: Dict[str, Any]) -> List[Tuple[str, Dict[str, Any], str]]:
                 bad.append("apply-wrong-result" + ("-on-reuse" if prior or k > 1 else ""))
             if bad:
                 break
-            if canon_dicts(patch.asdicts()) != pristine:
+            if canon_dicts(patch.asdicts()) != pristine_now:
                 bad.append("apply-changed-the-patch")
             elif canon_dicts(given) != pristine:
                 bad.append("apply-changed-callers-list")
